@@ -512,6 +512,19 @@ func c09Seed(c *Ctx, p *Prog, readPackets *ssa.Function) {
 			walk(f.Cond, 0)
 		}
 	}
+	// ... and in the iteration that decoded it: a Reset placed after the decode loop is reached only on some
+	// of the loop's exits (a partial frame behind the seed packet leaves the loop with ErrAgain / an error)
+	if decs := p.CallsIn(readPackets, idDecode); len(decs) == 1 && badA == "" {
+		db := decs[0].Block()
+		for _, cs := range p.SitesOf(p.Func("common/probdist:(*WeightedDist).Reset")) {
+			if cs.Caller != readPackets {
+				continue
+			}
+			if rb := cs.Instr.Block(); !blockReachesBlock(rb, db) {
+				badA = fmt.Sprintf("the Reset at %s is outside the decode loop (the frame decoder is not reachable from it): a seed packet followed by a partial frame in the same read is dropped or adopted depending on how the loop is left", p.InstrPos(cs.Instr))
+			}
+		}
+	}
 	switch {
 	case nA == 0:
 		ob.Undecide("no Reset call in readPackets")
@@ -1033,4 +1046,23 @@ func lastMutatorOnEdge(p *Prog, blk *ssa.BasicBlock, buf ssa.Value) *ssa.Call {
 		blk = blk.Preds[0]
 	}
 	return nil
+}
+
+// blockReachesBlock: b is reachable from a along CFG edges (a != b required to take at least one edge).
+func blockReachesBlock(a, b *ssa.BasicBlock) bool {
+	seen := map[*ssa.BasicBlock]bool{}
+	work := append([]*ssa.BasicBlock(nil), a.Succs...)
+	for len(work) > 0 {
+		x := work[len(work)-1]
+		work = work[:len(work)-1]
+		if x == b {
+			return true
+		}
+		if seen[x] {
+			continue
+		}
+		seen[x] = true
+		work = append(work, x.Succs...)
+	}
+	return false
 }
